@@ -45,7 +45,7 @@ def _single(prop, gen, seed, param, index, workdir):
     return "exit %d: %s" % (p.returncode, p.stderr.decode("utf-8", "replace")[-300:]), None
 
 
-def run_gen(verdict, prop, gen, seed, count, param=3, shards=None, start=0, max_crashes=8):
+def run_gen(verdict, prop, gen, seed, count, param=3, shards=None, start=0, max_crashes=8, binary=None, build_tag=None):
     """Run `count` indices of generator `gen` (or the whole space when it is smaller) and fold the
     result into `verdict`.  Returns the merged summary."""
     shards = shards or NCPU
@@ -62,7 +62,7 @@ def run_gen(verdict, prop, gen, seed, count, param=3, shards=None, start=0, max_
 
     def launch(s, st, gen_no):
         base = os.path.join(wd, "s%d-%d" % (s, gen_no))
-        cmd = [HARNESS_BIN, "run", "--prop", prop, "--gen", gen, "--seed", str(seed), "--param", str(param),
+        cmd = [binary or HARNESS_BIN, "run", "--prop", prop, "--gen", gen, "--seed", str(seed), "--param", str(param),
                "--start", str(st), "--count", str(max(0, start + count - st)), "--shards", str(shards), "--shard", str(s),
                "--out", base + ".json", "--hashes", base + ".bin", "--progress", base + ".prog", "--repo", REPO]
         p = subprocess.Popen(cmd, env=clean_env(), stdout=subprocess.DEVNULL, stderr=subprocess.PIPE)
@@ -130,7 +130,7 @@ def run_gen(verdict, prop, gen, seed, count, param=3, shards=None, start=0, max_
         verdict.count("%s" % k, v)
     for k, v in merged["outcomes"].items():
         verdict.count("outcome:%s" % k, v)
-    verdict.count("cases:%s" % gen, merged["evaluations"])
+    verdict.count("cases:%s%s" % (gen, ("@" + build_tag) if build_tag else ""), merged["evaluations"])
     for smp in merged["samples"][:2]:
         verdict.add_sample(smp, limit=8)
     seen_sig = {}
@@ -141,6 +141,8 @@ def run_gen(verdict, prop, gen, seed, count, param=3, shards=None, start=0, max_
         total = merged["sig_counts"].get("".join("%s=%s;" % (a, b) for a, b in sorted(k["sig"].items())), 1)
         sig = dict(k["sig"])
         sig["engine"] = "harness"
+        if build_tag:
+            sig["build"] = build_tag
         r = verdict.violation(sig, k["detail"], payload={"engine": "harness", "gen": gen, "index": k["index"], "gen_seed": seed,
                                                          "occurrences_of_signature": total},
                               files={"case.txt": k["case"]})
@@ -167,3 +169,55 @@ def _merge(m, d):
 def replay_case(prop, case_path):
     p = subprocess.run([HARNESS_BIN, "replay", "--prop", prop, case_path], env=clean_env(), stdout=subprocess.PIPE, stderr=subprocess.STDOUT, text=True)
     return p.returncode, p.stdout
+
+
+def run_miri(verdict, prop, gen, seed, per_shard, shards=16, param=3):
+    """Run a small shard of harness cases under Miri (undefined behaviour / aliasing / uninitialised reads in libpatch
+    and its dependencies).  Any Miri diagnostic is a violation; 'unsupported operation' is inconclusive."""
+    import shutil
+    from common import VERIF, BUILD
+    hdir = os.path.join(VERIF, "harness")
+    wd = os.path.join(scratch_root(), "miri-%s-%s" % (prop, gen))
+    os.makedirs(wd, exist_ok=True)
+    env = clean_env({"MIRIFLAGS": "-Zmiri-disable-isolation"})
+    base = ["cargo", "+nightly", "miri", "run", "--offline", "--target-dir", os.path.join(BUILD, "miri"), "--"]
+
+    def cmd(shard, count, out):
+        return base + ["run", "--prop", prop, "--gen", gen, "--seed", str(seed), "--param", str(param), "--start", "0", "--count", str(count * shards),
+                       "--shards", str(shards), "--shard", str(shard), "--out", out, "--repo", REPO]
+    # build once (serialised), then run the shards in parallel
+    p = subprocess.run(cmd(0, 0, os.path.join(wd, "warm.json")), cwd=hdir, env=env, stdout=subprocess.PIPE, stderr=subprocess.PIPE, timeout=1800)
+    if p.returncode != 0:
+        raise Inconclusive("miri build/run failed: %s" % p.stderr.decode("utf-8", "replace")[-600:])
+    procs = []
+    for s in range(shards):
+        out = os.path.join(wd, "m%d.json" % s)
+        procs.append((s, out, subprocess.Popen(cmd(s, per_shard, out), cwd=hdir, env=env, stdout=subprocess.DEVNULL, stderr=subprocess.PIPE)))
+    total = 0
+    for s, out, pr in procs:
+        try:
+            _, err = pr.communicate(timeout=3600)
+        except subprocess.TimeoutExpired:
+            pr.kill()
+            raise Inconclusive("miri shard exceeded the watchdog")
+        err = err.decode("utf-8", "replace")
+        if pr.returncode != 0:
+            if "unsupported operation" in err:
+                raise Inconclusive("miri: unsupported operation: %s" % err[-400:])
+            import re
+            m = re.search(r"error: (Undefined Behavior[^\n]*|[^\n]*)", err)
+            kind = "undefined-behavior" if "Undefined Behavior" in err else "miri-error"
+            verdict.violation({"class": "miri-" + kind, "engine": "miri", "gen": gen}, "Miri reports: %s\n%s" % (m.group(1) if m else "?", err[-1500:]),
+                              payload={"engine": "miri", "replay": " ".join(cmd(s, per_shard, "/dev/null"))})
+            continue
+        with open(out) as f:
+            d = json.load(f)
+        total += d["evaluations"]
+        for k in d.get("kept", []):
+            sig = dict(k["sig"])
+            sig["engine"] = "harness"
+            sig["build"] = "miri"
+            verdict.violation(sig, k["detail"], payload={"engine": "harness", "gen": gen, "index": k["index"]}, files={"case.txt": k["case"]})
+    verdict.evaluations += total
+    verdict.count("cases-under-miri:%s" % gen, total)
+    return total
